@@ -26,9 +26,6 @@ theorem encInt_len (i : Int) (k : Nat) (h : i.natAbs < 10 ^ (k + 1)) : (encInt i
   have := encNatAux_len i.natAbs i.natAbs k h
   rcases encInt_cases i with ⟨_, e⟩ | ⟨_, e⟩ <;> rw [e] <;> simp [encNat] <;> omega
 
-def Int32 (i : Int) : Prop := -2147483648 ≤ i ∧ i ≤ 2147483647
-instance (i : Int) : Decidable (Int32 i) := by unfold Int32; infer_instance
-
 theorem encInt_len32 (i : Int) (h : Int32 i) : (encInt i).length ≤ 11 := by
   have : i.natAbs < 10 ^ (9 + 1) := by
     have : (10 : Nat) ^ (9 + 1) = 10000000000 := by decide
@@ -83,10 +80,6 @@ theorem encInt_ofNat (n : Nat) : encInt (n : Int) = encNat n := by
   simp [this]
 
 /-! ## the options block -/
-
-/-- the integers of the `Options` block in file order -/
-def optInts (opts : List Int) (ncons nd nvars np : Nat) : List Int :=
-  (opts.length : Int) :: opts ++ [(ncons : Int), (nd : Int), (nvars : Int), (np : Int)]
 
 theorem optsText_written (o0 o1 o2 : Int) (os : List Int) (ncons nd nvars np : Nat) (rest : Bytes)
     (hos : os.length ≤ 6) (h3 : o1 ≠ 3)
@@ -148,9 +141,6 @@ theorem strObjno : str "objno " = [111, 98, 106, 110, 111, 32] := by decide
 theorem strSuffix : str "suffix " = [115, 117, 102, 102, 105, 120, 32] := by decide
 theorem strOptions : str "Options" = [79, 112, 116, 105, 111, 110, 115] := by decide
 
-def Int64 (i : Int) : Prop := -9223372036854775808 ≤ i ∧ i ≤ 9223372036854775807
-instance (i : Int) : Decidable (Int64 i) := by unfold Int64; infer_instance
-
 theorem encInt_len64 (i : Int) (h : Int64 i) : (encInt i).length ≤ 20 := by
   have : i.natAbs < 10 ^ (18 + 1) := by
     have : (10 : Nat) ^ (18 + 1) = 10000000000000000000 := by decide
@@ -205,13 +195,6 @@ theorem textTail_objno (fx : Bool) (pol : Policy) (a b : Int) (rest : Bytes) (ha
   exact List.take_left' (by simp)
 
 /-! ## suffix entries `<index> <value>` -/
-
-/-- explicit codec hypothesis for a value printed in a suffix line: one line, no NUL, and `strtod`
-(after the blank) consumes exactly the printed text -/
-structure GoodSufTok (t : Bytes) : Prop where
-  short : t.length ≤ 400
-  clean : ∀ c ∈ t, c ≠ 10 ∧ c ≠ 0
-  scan : strtodLen (32 :: t ++ [10]) = t.length + 1
 
 theorem goodSufTokB_sound (t : Bytes) (h : goodSufTokB t = true) : GoodSufTok t := by
   simp only [goodSufTokB, Bool.and_eq_true, decide_eq_true_eq, List.all_eq_true, bne_iff_ne, ne_eq, beq_iff_eq] at h
